@@ -22,18 +22,6 @@ def classify(prop, f, tr, trace_text):
         # first hand-over (sticky in renet) and never connects again
         return 'S9-promotion-chain-broken'
     if sig in ('entity-sets-differ', 'value-missing', 'values-differ', 'parents-differ'):
-        # S18: a client received `spawn u` again (its own snapshot) after it had locally despawned u
-        got, despawned = {}, set()
-        for ev in tr['events']:
-            if ev[0] == 'op' and ev[2][0] == 'despawn':
-                despawned.add((ev[1], ev[2][1]))
-            if ev[0] == 'frame':
-                for frm, m in ev[1].rcv:
-                    if m[0] == 'spawn':
-                        k = (ev[1].peer, m[1])
-                        if k in got and k in despawned and frm == 'h':
-                            return 'S18-resurrected-by-own-snapshot'
-                        got[k] = True
         setups = {}
         for p, w in ops:
             if w[0] in ('setup', 'reconnect'):
